@@ -15,6 +15,9 @@ from harness.common.ctx import Timeout, time_limit
 
 EXE = "c15_model"
 FUEL = 4000
+MAX_TIMEOUTS = 6      # per batch: after that many 5 s timeouts the remaining cases are skipped
+MAX_VIOLATIONS = 40   # per batch: further failing inputs are only counted
+MAX_CONFIRM = 2       # timeouts re-run with a 60 s limit before being reported
 
 
 # ------------------------------------------------------------------ generators
@@ -22,27 +25,93 @@ def lit_pool(nv):
     return [(v, b) for v in range(nv) for b in (True, False)]
 
 
+def gen_ksat(rng, nv, nc, widths, dup=0.0):
+    """Random clauses without unit/empty clauses: the solver has to decide, learn and backjump."""
+    cnf = []
+    for _ in range(nc):
+        k = min(rng.choice(widths), nv)
+        vs = rng.sample(range(nv), k)
+        cl = [(v, rng.random() < 0.5) for v in vs]
+        if dup and rng.random() < dup:                       # repeated / complementary literal
+            v, b = rng.choice(cl)
+            cl.insert(rng.randint(0, len(cl)), (v, b if rng.random() < 0.5 else not b))
+        cnf.append(cl)
+    return cnf
+
+
+def gen_structured(rng):
+    """Small hard families, clause and literal order shuffled, variables renamed."""
+    kind = rng.randint(0, 3)
+    if kind == 0:                                            # all 2^n sign patterns over n variables (minus a few)
+        n = rng.randint(2, 4)
+        cnf = [[(v, bool(bits >> v & 1)) for v in range(n)] for bits in range(2 ** n)]
+        for _ in range(rng.choice([0, 0, 1, 2])):
+            cnf.pop(rng.randrange(len(cnf)))
+    elif kind == 1:                                          # pigeonhole: p pigeons, h holes
+        h = rng.randint(2, 3)
+        p = h + rng.choice([0, 1, 1])
+        var = lambda i, j: i * h + j                         # noqa
+        cnf = [[(var(i, j), True) for j in range(h)] for i in range(p)]
+        cnf += [[(var(i, j), False), (var(k, j), False)] for j in range(h) for i in range(p) for k in range(i + 1, p)]
+    elif kind == 2:                                          # parity chain x0^x1, x1^x2, ... with a contradictory or consistent end
+        n = rng.randint(3, 6)
+        cnf = []
+        for v in range(n - 1):
+            cnf += [[(v, True), (v + 1, True)], [(v, False), (v + 1, False)]]
+        a, b = (True, True) if (n % 2 == 1) == (rng.random() < 0.5) else (True, False)
+        cnf += [[(0, a), (n - 1, b)], [(0, not a), (n - 1, not b)]]
+    else:                                                    # implication ladder ending in a conflict deep below the decisions
+        n = rng.randint(3, 6)
+        cnf = [[(v, False), (v + 1, True)] for v in range(n - 1)]
+        cnf += [[(n - 1, False), (n, True), (n + 1, True)], [(n - 1, False), (n, False), (n + 1, True)],
+                [(n - 1, False), (n, True), (n + 1, False)], [(n - 1, False), (n, False), (n + 1, False)]]
+        if rng.random() < 0.5:
+            cnf.append([(0, True), (n, True)])
+    cnf = [rng.sample(cl, len(cl)) for cl in cnf]
+    rng.shuffle(cnf)
+    names = list({v for cl in cnf for v, _ in cl})
+    perm = dict(zip(names, rng.sample(names, len(names))))
+    flip = {v: rng.random() < 0.3 for v in names}
+    return [[(perm[v], b != flip[v]) for v, b in cl] for cl in cnf]
+
+
+def gen_messy(rng):
+    """Anything goes: unit and empty clauses, repeated and complementary literals, repeated clauses."""
+    r = rng.random()
+    if r < 0.5:
+        nv, nc, w = rng.randint(1, 4), rng.randint(0, 8), 3
+    else:
+        nv, nc, w = rng.randint(3, 8), rng.randint(4, 30), 4
+    pool = lit_pool(nv)
+    cnf = []
+    for _ in range(nc):
+        k = rng.choice([1, 2, 2, 2, 3, 3, 3, w]) if rng.random() < 0.97 else 0
+        cl = [rng.choice(pool) for _ in range(k)]            # duplicates and tautologies on purpose
+        if rng.random() < 0.6:
+            cl = list(dict.fromkeys(cl))
+        cnf.append(cl)
+    if rng.random() < 0.3 and cnf:                           # duplicate clauses
+        cnf.append(list(rng.choice(cnf)))
+    return cnf
+
+
 def gen_random(rng, n):
     out = []
     for _ in range(n):
         r = rng.random()
-        if r < 0.45:
-            nv, nc, w = rng.randint(1, 4), rng.randint(0, 8), 3
-        elif r < 0.85:
-            nv, nc, w = rng.randint(3, 8), rng.randint(4, 30), 4
-        else:
-            nv, nc, w = rng.randint(6, 12), rng.randint(20, 60), 4
-        pool = lit_pool(nv)
-        cnf = []
-        for _ in range(nc):
-            k = rng.choice([0, 1, 1, 2, 2, 2, 3, 3, 3, w]) if rng.random() < 0.9 else rng.randint(0, w)
-            cl = [rng.choice(pool) for _ in range(k)]       # duplicates and tautologies on purpose
-            if rng.random() < 0.7:                           # mostly: plain clauses
-                cl = list(dict.fromkeys(cl))
-            cnf.append(cl)
-        if rng.random() < 0.3 and cnf:                       # duplicate clauses
-            cnf.append(list(rng.choice(cnf)))
-        out.append(cnf)
+        if r < 0.20:
+            out.append(gen_messy(rng))
+        elif r < 0.35:
+            out.append(gen_structured(rng))
+        elif r < 0.60:                                       # 3-SAT around the threshold
+            nv = rng.randint(3, 9)
+            out.append(gen_ksat(rng, nv, int(nv * rng.uniform(3.5, 6.5)), [3], dup=0.05))
+        elif r < 0.85:                                       # mixed 2/3-SAT: long propagation chains
+            nv = rng.randint(3, 10)
+            out.append(gen_ksat(rng, nv, int(nv * rng.uniform(1.8, 4.0)), [2, 2, 3, 3, 4], dup=0.05))
+        else:                                                # larger
+            nv = rng.randint(8, 12)
+            out.append(gen_ksat(rng, nv, rng.randint(25, 60), [2, 3, 3, 3, 4], dup=0.02))
     return out
 
 
@@ -54,6 +123,14 @@ def gen_exhaustive(max_clauses):
     for k in range(0, max_clauses + 1):
         for combo in itertools.combinations(clauses, k):
             yield [list(c) for c in combo]
+
+
+def gen_exhaustive_sets(k):
+    """All k-clause combinations of the 42 clause *sets* of width <= 3 over 3 variables."""
+    pool = lit_pool(3)
+    clauses = [list(c) for w in range(0, 4) for c in itertools.combinations(pool, w)]
+    for combo in itertools.combinations(clauses, k):
+        yield [list(c) for c in combo]
 
 
 # ------------------------------------------------------------------ implementation side
@@ -171,6 +248,24 @@ def gen_formula(rng, depth, atoms, T):
     return [None, T.And, T.Or, T.Implies, T.Eq][k](a, b)
 
 
+def gen_unsat_formula(rng, atoms, T):
+    """Negated instance of a tautology scheme (or a direct contradiction): unsatisfiable, and for a reason that goes
+    through every connective's defining clauses."""
+    g = gen_formula(rng, rng.randint(0, 1), atoms, T)
+    h = gen_formula(rng, rng.randint(0, 1), atoms, T)
+    k = gen_formula(rng, 0, atoms, T)
+    N, A, O, I, E = T.Not, T.And, T.Or, T.Implies, T.Eq
+    schemes = [
+        lambda: A(g, N(g)), lambda: N(O(g, N(g))), lambda: N(I(g, g)), lambda: E(g, N(g)), lambda: N(E(g, g)),
+        lambda: N(I(A(g, h), g)), lambda: N(I(A(g, h), h)), lambda: N(I(g, O(g, h))), lambda: N(I(h, O(g, h))),
+        lambda: N(I(A(I(g, h), g), h)), lambda: N(I(E(g, h), E(h, g))), lambda: N(E(N(A(g, h)), O(N(g), N(h)))),
+        lambda: N(E(N(O(g, h)), A(N(g), N(h)))), lambda: N(E(I(g, h), O(N(g), h))), lambda: A(O(g, h), A(N(g), N(h))),
+        lambda: N(I(A(E(g, h), E(h, k)), E(g, k))), lambda: A(E(g, h), A(g, N(h))), lambda: A(I(g, h), A(g, N(h))),
+        lambda: N(E(N(N(g)), g)), lambda: A(E(g, h), A(N(g), h)),
+    ]
+    return rng.choice(schemes)()
+
+
 def eval_form(t, env):
     if t.is_not():
         return not eval_form(t.arg, env)
@@ -196,7 +291,31 @@ def atoms_of(t, acc):
     return acc
 
 
-def tseitin_stage(ctx):
+def form_sexp(t, atom_ids):
+    """holpy term -> wire form of the model's `Form` (atoms numbered by `atom_ids`)."""
+    if t.is_not():
+        return ["not", form_sexp(t.arg, atom_ids)]
+    for test, tag in (("is_conj", "and"), ("is_disj", "or"), ("is_implies", "imp"), ("is_equals", "iff")):
+        if getattr(t, test)():
+            return [tag, form_sexp(t.arg1, atom_ids), form_sexp(t.arg, atom_ids)]
+    return ["atom", atom_ids[t.name]]
+
+
+def canon_clauses(cnf):
+    """A CNF as a set of clauses, each clause a sorted tuple of distinct literals."""
+    return sorted({tuple(sorted(set((int(n), bool(b)) for n, b in cl))) for cl in cnf})
+
+
+def form_term(x, T, atoms):
+    """inverse of form_sexp"""
+    if x[0] == "atom":
+        return atoms[int(x[1])]
+    if x[0] == "not":
+        return T.Not(form_term(x[1], T, atoms))
+    return {"and": T.And, "or": T.Or, "imp": T.Implies, "iff": T.Eq}[x[0]](form_term(x[1], T, atoms), form_term(x[2], T, atoms))
+
+
+def tseitin_stage(ctx, only=None):
     from kernel import term as T, theory, report
     from kernel.type import BoolType
     from logic import basic
@@ -204,9 +323,20 @@ def tseitin_stage(ctx):
     basic.load_theory('sat')
     rng = ctx.rng("tseitin")
     atoms = [T.Var(n, BoolType) for n in "abcd"]
-    n = ctx.scale(25, 300)
-    for i in range(n):
-        f = gen_formula(rng, rng.randint(1, 3), atoms, T)
+    atom_ids = {"a": 0, "b": 1, "c": 2, "d": 3}
+    n = ctx.scale(60, 600)
+    lines, impl_cnfs = [], []
+    fixed = [atoms[0], T.And(atoms[0], atoms[0]), T.Eq(atoms[0], atoms[1]), T.Not(T.Not(atoms[0])),
+             T.Or(T.And(atoms[0], T.Not(atoms[0])), atoms[1]), T.Implies(T.And(atoms[0], atoms[1]), T.And(atoms[0], atoms[1]))]
+    if only is not None:
+        fixed, n = [form_term(x, T, atoms) for x in only], 0
+    for i in range(n + len(fixed)):
+        if i < len(fixed):
+            f = fixed[i]
+        elif rng.random() < 0.45:
+            f = gen_unsat_formula(rng, atoms, T)
+        else:
+            f = gen_formula(rng, rng.randint(1, 3), atoms, T)
         ctx.case(("tseitin", str(f)), nontrivial=not f.is_var())
         ctx.count("tseitin")
         try:
@@ -218,17 +348,24 @@ def tseitin_stage(ctx):
             raise
         except Exception as e:  # noqa
             ctx.violation("tseitin:raise:%s" % type(e).__name__, "tseitin.encode / check_proof raised %s on %s" % (type(e).__name__, f),
-                          {"formula": str(f), "error": repr(e)})
+                          {"formula": str(f), "form": form_sexp(f, atom_ids), "error": repr(e)})
             continue
         if th != pt.th or len(rpt.gaps) > 0:
-            ctx.violation("tseitin:not-checked", "Tseitin theorem for %s not accepted by the checker" % f, {"formula": str(f)})
+            ctx.violation("tseitin:not-checked:%s" % f, "Tseitin theorem for %s not accepted by the checker" % f, {"formula": str(f), "form": form_sexp(f, atom_ids)})
             continue
         # Semantic oracle: hyps are As (x_i <-> ...) and F; conclusion is the CNF.
         try:
             cnf = tseitin.convert_cnf(pt.prop)
         except Exception as e:  # noqa
-            ctx.violation("tseitin:not-cnf", "conclusion of Tseitin theorem for %s is not a CNF" % f, {"formula": str(f), "prop": str(pt.prop)})
+            ctx.violation("tseitin:not-cnf:%s" % f, "conclusion of Tseitin theorem for %s is not a CNF" % f, {"formula": str(f), "form": form_sexp(f, atom_ids), "prop": str(pt.prop)})
             continue
+        # correspondence with the model's clause set: same numbering x1..xn of the subterms
+        try:
+            order = tseitin.logic_subterms(f)
+            lines.append(sexp.dumps(["tseitin", form_sexp(f, atom_ids), [form_sexp(g, atom_ids) for g in order]]))
+            impl_cnfs.append((str(f), [[(int(nm[1:]) if nm[:1] == "x" and nm[1:].isdigit() else -1, b) for nm, b in cl] for cl in cnf]))
+        except Exception as e:  # noqa
+            ctx.broken("correspondence:c15:tseitin", "cannot read the subterm numbering of %s: %r" % (f, e))
         f_atoms = sorted(atoms_of(f, set()))
         f_sat = any(eval_form(f, dict(zip(f_atoms, bits))) for bits in itertools.product((False, True), repeat=len(f_atoms)))
         names = sorted({nm for cl in cnf for nm, _ in cl})
@@ -239,18 +376,35 @@ def tseitin_stage(ctx):
                 if all(any(a[nm] == b for nm, b in cl) for cl in cnf):
                     c_sat = True
                     break
+            ctx.count("tseitin:formula-%s" % ("sat" if f_sat else "unsat"))
             if c_sat != f_sat:
-                ctx.violation("tseitin:not-equisat", "Tseitin CNF of %s is %ssatisfiable but the formula is %ssatisfiable" % (f, "" if c_sat else "un", "" if f_sat else "un"),
-                              {"formula": str(f), "cnf": cnf})
+                ctx.violation("tseitin:not-equisat:%s" % f, "Tseitin CNF of %s is %ssatisfiable but the formula is %ssatisfiable" % (f, "" if c_sat else "un", "" if f_sat else "un"),
+                              {"formula": str(f), "form": form_sexp(f, atom_ids), "tseitin_cnf": cnf})
         # the sequent itself must be valid: every assignment satisfying all hyps satisfies the CNF
         allv = sorted(set(names) | set(f_atoms) | {v.name for h in pt.hyps for v in h.get_vars()})
         if len(allv) <= 16:
             for bits in itertools.product((False, True), repeat=len(allv)):
                 a = dict(zip(allv, bits))
                 if all(eval_form(h, a) for h in pt.hyps) and not all(any(a[nm] == b for nm, b in cl) for cl in cnf):
-                    ctx.violation("tseitin:invalid-sequent", "Tseitin theorem for %s is not valid" % f, {"formula": str(f), "assignment": a})
+                    ctx.violation("tseitin:invalid-sequent:%s" % f, "Tseitin theorem for %s is not valid" % f, {"formula": str(f), "form": form_sexp(f, atom_ids), "assignment": a})
                     break
     ctx.sample({"tseitin_formula": str(f)})
+    out = ctx.lean_driver(EXE, lines) if lines else []
+    if out is None:
+        ctx.broken("correspondence:c15:driver", "model driver unavailable (tseitin)")
+        return
+    ndis = 0
+    for (fs, icnf), line in zip(impl_cnfs, out):
+        ctx.count("tseitin:cnf-compared")
+        try:
+            m = canon_clauses([[(n_, b_ == "T") for n_, b_ in cl] for cl in sexp.loads(line)])
+        except Exception:  # noqa
+            m = line
+        if m != canon_clauses(icnf):
+            ndis += 1
+            if ndis <= 3:
+                ctx.broken("correspondence:c15:tseitin", "formula=%s impl=%s model=%s" % (fs, canon_clauses(icnf), m))
+                ctx.coverage["disagreements_checked"] += 1
 
 
 # ------------------------------------------------------------------ Gen.lean (translated encode_* rules)
@@ -323,6 +477,16 @@ def translate_encode_rules(ctx):
         a, b = lean(e[1]), lean(e[2])
         return {"and": "(%s && %s)", "or": "(%s || %s)", "imp": "((!%s) || %s)", "iff": "(%s == %s)"}[e[0]] % (a, b)
 
+    def flatten(e, op):
+        return flatten(e[1], op) + flatten(e[2], op) if e[0] == op else [e]
+
+    def lean_lit(e):
+        if e[0] == "var":
+            return "(%s, true)" % e[1]
+        if e[0] == "not" and e[1][0] == "var":
+            return "(%s, false)" % e[1][1]
+        raise ValueError("untranslatable: right-hand side of an encode rule is not a CNF: %r" % (e,))
+
     lines = ["/- GENERATED by harness/props/c15.py from library/sat.json and syntax/operator.py; do not edit. -/",
              "namespace Holpy.C15.Gen", ""]
     names = []
@@ -331,6 +495,14 @@ def translate_encode_rules(ctx):
         args = " ".join(vs)
         lines.append("/-- %s : %s -/" % (name, prop))
         lines.append("def %s (%s : Bool) : Bool := %s" % (name, args, lean(e)))
+        lines.append("")
+        # the right-hand side of the rule as a clause list over variable numbers
+        if e[0] != "iff":
+            raise ValueError("untranslatable: %s is not an equivalence" % name)
+        clauses = [flatten(c, "or") for c in flatten(e[2], "and")]
+        lines.append("/-- right-hand side of %s as a list of clauses -/" % name)
+        lines.append("def %s_cnf (%s : Nat) : List (List (Nat × Bool)) :=\n  [%s]" % (
+            name, args, ", ".join("[" + ", ".join(lean_lit(x) for x in c) + "]" for c in clauses)))
         lines.append("")
         names.append((name, vs))
     lines.append("def ruleNames : List String := [%s]" % ", ".join('"%s"' % n for n, _ in names))
@@ -362,44 +534,128 @@ def read_operator_priorities(ctx):
 
 
 # ------------------------------------------------------------------ main
+def judge(cnf, res):
+    """Property oracle on one answer of the implementation: None, or (kind, what, extra)."""
+    if res[0] in ("raise", "other", "input-modified"):
+        return ("crash:%s" % (res[-1],), "solve_cnf %s" % (res,), {})
+    truth = brute_sat(cnf)
+    if res[0] == "sat":
+        if not satisfies(cnf, res[1]):
+            return ("bad-assignment", "solve_cnf returned an assignment that does not satisfy the CNF", {})
+        if truth is False:
+            return ("wrong-verdict", "satisfiable reported for an unsatisfiable CNF", {})
+    elif res[0] == "unsat":
+        if truth is True:
+            return ("wrong-verdict", "unsatisfiable reported for a satisfiable CNF", {})
+        ok, why, _ = replay_trace(cnf, res[1])
+        if not ok:
+            return ("bad-trace", "resolution trace invalid (%s)" % why, {"why": why})
+    return None
+
+
+def shrink_cnf(sat, cnf, kind, budget=400, seconds=15):
+    """Greedy: drop clauses, then literals, while the same kind of failure persists."""
+    import time
+    deadline = time.time() + seconds
+
+    def fails(c):
+        if time.time() > deadline:
+            return None
+        r = run_impl(sat, c, 1)[0]
+        if r[0] == "timeout":
+            return None
+        v = judge(c, r)
+        return r if v is not None and v[0] == kind else None
+    cur = [list(cl) for cl in cnf]
+    best = fails(cur)
+    if best is None:
+        return cnf, None
+    changed = True
+    while changed and budget > 0:
+        changed = False
+        for i in range(len(cur) - 1, -1, -1):
+            budget -= 1
+            cand = cur[:i] + cur[i + 1:]
+            r = fails(cand)
+            if r is not None:
+                cur, best, changed = cand, r, True
+        for i in range(len(cur)):
+            for k in range(len(cur[i]) - 1, -1, -1):
+                budget -= 1
+                cand = cur[:i] + [cur[i][:k] + cur[i][k + 1:]] + cur[i + 1:]
+                r = fails(cand)
+                if r is not None:
+                    cur, best, changed = cand, r, True
+    return cur, best
+
+
 def check_cases(ctx, sat, cases, label, limit=5):
     lines = []
     impl = []
+    ntimeouts = 0
     for cnf in cases:
-        res, var_order, rec = run_impl(sat, cnf, limit)
+        if ntimeouts >= MAX_TIMEOUTS:                        # the tree is broken; do not spend the budget on more of the same
+            res, var_order, rec = ("skipped",), [], []
+        else:
+            res, var_order, rec = run_impl(sat, cnf, limit)
+            ntimeouts += res[0] == "timeout"
         impl.append((res, var_order, rec))
         lines.append(sexp.dumps(["solve", FUEL, s_cnf(cnf), var_order, s_cnf(rec)]))
+    # the verified Lean checker judges every 'unsatisfiable' answer of the implementation
+    cert_idx = [i for i, (res, _, _) in enumerate(impl) if res[0] == "unsat"]
+    lines += [sexp.dumps(["checkproofs", s_cnf(cases[i]), [[k, p] for k, p in impl[i][0][1]]]) for i in cert_idx]
+    nconfirmed = 0
+    nviol = 0
     out = ctx.lean_driver(EXE, lines) if lines else []
+    cert = dict(zip(cert_idx, out[len(cases):])) if out is not None else {}
     ndis = 0
     for idx, cnf in enumerate(cases):
         res, var_order, rec = impl[idx]
         nontriv = len(cnf) >= 2 and any(len(c) >= 2 for c in cnf)
         ctx.case(("cnf", cnf), nontrivial=nontriv)
         ctx.count("%s:%s" % (label, res[0]))
+        nres = len(rec)
+        ctx.count("resolution-calls:%s" % ("0" if nres == 0 else "1-4" if nres < 5 else "5-19" if nres < 20 else "20+"))
+        if res[0] == "unsat":
+            ctx.count("learned-clauses:%s" % (len(res[1]) if len(res[1]) < 4 else "4+"))
         # --- property oracle on the implementation
-        key_base = json.dumps(cnf)
+        if res[0] == "skipped":
+            continue
         if res[0] == "timeout":
-            # confirm with a long limit so that a loaded machine cannot cause an alarm
-            res2, _, _ = run_impl(sat, cnf, 60)
+            # confirm with a long limit so that a loaded machine cannot cause an alarm (first few only)
+            if nconfirmed >= MAX_CONFIRM:
+                ctx.count("timeout-unconfirmed")
+                continue
+            nconfirmed += 1
+            res2, var_order, rec = run_impl(sat, cnf, 60)
             if res2[0] == "timeout":
                 ctx.violation("nontermination:" + classify(cnf), "solve_cnf does not terminate (60 s) on %s" % cnf, {"cnf": cnf, "kind": "nontermination"})
                 continue
             res = res2
-        if res[0] in ("raise", "other", "input-modified"):
-            ctx.violation("crash:%s:%s" % (res[-1], classify(cnf)), "solve_cnf %s on %s" % (res, cnf), {"cnf": cnf, "result": res})
+            impl[idx] = (res, var_order, rec)
+            redo = ctx.lean_driver(EXE, [sexp.dumps(["solve", FUEL, s_cnf(cnf), var_order, s_cnf(rec)])])
+            if out is not None and redo is not None:
+                out[idx] = redo[0]
+        v = judge(cnf, res)
+        if v is None and res[0] == "unsat" and cert.get(idx, "T") != "T":
+            v = ("bad-trace", "the verified trace checker (Lean checkProofs) rejects the proofs", {"why": "lean-checker"})
+            ctx.count("lean-checker-only-rejection")
+        if v is not None:
+            nviol += 1
+            if nviol > MAX_VIOLATIONS:
+                ctx.count("violations-not-listed")
+                continue
+            kind, what, extra = v
+            small, sres = (cnf, None)
+            if nviol <= 3 and extra.get("why") != "lean-checker":
+                small, sres = shrink_cnf(sat, cnf, kind)
+            if sres is None:
+                small, sres = cnf, res
+            key = ("%s:%s" % (kind, classify(small))) if kind.startswith("crash") else "%s:%s" % (kind, json.dumps(small))
+            ctx.violation(key, "%s: %s -> %s" % (what, small, sres), dict({"cnf": small, "result": sres, "kind": kind, "found_on": cnf}, **extra))
             continue
-        truth = brute_sat(cnf)
-        if res[0] == "sat":
-            if not satisfies(cnf, res[1]):
-                ctx.violation("bad-assignment:" + key_base, "solve_cnf returned an assignment that does not satisfy %s" % cnf, {"cnf": cnf, "result": res})
-            elif truth is False:
-                ctx.violation("wrong-verdict:" + key_base, "satisfiable reported for unsatisfiable CNF %s" % cnf, {"cnf": cnf, "result": res})
-        elif res[0] == "unsat":
-            if truth is True:
-                ctx.violation("wrong-verdict:" + key_base, "unsatisfiable reported for satisfiable CNF %s" % cnf, {"cnf": cnf, "result": res})
-            ok, why, final = replay_trace(cnf, res[1])
-            if not ok:
-                ctx.violation("bad-trace:" + key_base, "resolution trace invalid (%s) for %s" % (why, cnf), {"cnf": cnf, "result": res, "why": why})
+        if res[0] == "unsat":
+            ctx.count("unsat-certified-by-lean-checker")
         # --- correspondence with the model
         if out is not None:
             m = parse_model(out[idx])
@@ -418,10 +674,14 @@ def classify(cnf):
 
 
 def run(ctx):
-    ctx.coverage["rule"] = ("CNFs over int-named variables: random (1-12 variables, 0-60 clauses, width 0-4, with duplicate and "
-                            "tautological literals, empty clauses, duplicate clauses) and, in the thorough tier, every combination of "
-                            "<=3 clauses out of the 84 clause multisets of width <=3 over 3 variables; non-trivial = at least two clauses and "
-                            "one clause of width >=2; distinct by the literal lists. Tseitin: random formulas over 4 atoms, depth <=3.")
+    ctx.coverage["rule"] = ("CNFs over int-named variables, five families: random 3-SAT around the threshold (3-9 variables), mixed 2/3/4-SAT "
+                            "(3-12 variables, up to 60 clauses), structured (all sign patterns, pigeonhole, parity chains, implication ladders; shuffled, "
+                            "renamed, polarity-flipped), and messy (1-8 variables, unit/empty/duplicate clauses, repeated and complementary literals); in "
+                            "the thorough tier also every combination of <=3 clauses out of the 84 clause multisets of width <=3 over 3 variables and every "
+                            "combination of 4 out of the 42 clause sets. "
+                            "Non-trivial = at least two clauses and one clause of width >=2; distinct by the literal lists. The histogram records how many "
+                            "resolution calls / learned clauses each run needed. Tseitin: fixed corner cases, random formulas over 4 atoms of depth <=3, "
+                            "and negated tautology-scheme instances (unsatisfiable), ~45%.")
     # 1. translated table + Lean obligations
     try:
         gen = translate_encode_rules(ctx)
@@ -435,7 +695,8 @@ def run(ctx):
     ctx.coverage["trusted_base"] += [
         "correspondence harness harness/props/c15.py (generators, recorded set orders)",
         "translator of library/sat.json encode_* statements to Bool formulas",
-        "Python set/dict semantics; tseitin.encode's theorem is judged by the real checker + brute force, its construction is not modelled"]
+        "Python set/dict semantics; tseitin.encode's theorem is judged by the real checker + brute force; its CNF is compared with the "
+        "model's clause set (subterm numbering taken from tseitin.logic_subterms), the proof-term construction itself is not modelled"]
     ctx.assumptions += ["the model takes Python's set iteration orders as oracle inputs; theorems hold for every order",
                         "termination of solve_cnf is not proved (fuel); non-termination is searched for with time limits"]
     # 2+3. correspondence and oracle
@@ -443,13 +704,13 @@ def run(ctx):
     rng = ctx.rng("cnf")
     corpus = load_corpus(ctx)
     check_cases(ctx, sat, corpus, "corpus")
-    cases = gen_random(rng, ctx.scale(1500, 30000))
+    cases = gen_random(rng, ctx.scale(3000, 40000))
     for c in cases[:3]:
         ctx.sample({"cnf": c})
     have_model = check_cases(ctx, sat, cases, "random")
     if ctx.tier == "thorough":
         batch = []
-        for cnf in gen_exhaustive(3):
+        for cnf in itertools.chain(gen_exhaustive(3), gen_exhaustive_sets(4)):
             batch.append(cnf)
             if len(batch) >= 20000:
                 check_cases(ctx, sat, batch, "exhaustive")
@@ -457,7 +718,8 @@ def run(ctx):
         if batch:
             check_cases(ctx, sat, batch, "exhaustive")
         ctx.coverage["exhaustive"] = False  # exhaustive for the stated sub-space only
-        ctx.coverage["exhaustive_subspace"] = "all <=3-clause combinations of the 84 clause multisets over 3 variables"
+        ctx.coverage["exhaustive_subspace"] = ("all <=3-clause combinations of the 84 clause multisets of width <=3 over 3 variables, and all "
+                                               "4-clause combinations of the 42 clause sets of width <=3 over 3 variables")
     if not have_model:
         ctx.broken("correspondence:c15:driver", "model driver unavailable")
     # 4. tseitin
@@ -479,17 +741,23 @@ def replay(ctx, rp):
     if "cnf" in r:
         cnf = [[(int(n), bool(b)) for n, b in cl] for cl in r["cnf"]]
         check_cases(ctx, sat, [cnf], "replay", limit=60)
+    if "form" in r:
+        tseitin_stage(ctx, only=[r["form"]])
     for v in ctx.violations:
         print("still fails:", v[1])
     return bool(ctx.violations)
 
 
 MANIFEST = {
-    "text": "Lean theorems about an executable model of solve_cnf for every CNF, fuel and set-iteration order; encode_* rules regenerated "
-            "from library/sat.json and re-proved each run; model tied to prover/sat.py by differential runs on generated CNFs; verdicts and "
-            "traces of the real solver judged by brute force and an independent trace replay. Termination is not proved (searched for with time limits).",
+    "text": "Lean theorems about an executable model of solve_cnf for every CNF, fuel and set-iteration order (sat_sound, unsat_sound, "
+            "trace_valid, proofs_valid, verdict_correct, no_crash), a verified certificate checker (checkTrace_sound, checkProofs_sound) that is run on every "
+            "'unsatisfiable' answer of the real solver, and tseitin_equisat for a model of the Tseitin CNF whose clause groups are the encode_* rules "
+            "regenerated from library/sat.json on each run; models tied to prover/sat.py and prover/tseitin.py by differential runs on generated "
+            "inputs; verdicts, assignments and traces of the real solver judged by brute force and an independent trace replay. Termination is not "
+            "proved (fuel in the model; searched for with time limits on the implementation).",
     "note": "Trusted: Lean kernel, propext/Classical.choice/Quot.sound, the harness generators and the recording of Python set orders, the "
-            "sat.json translator. tseitin.encode is judged by the real checker plus brute-force equisatisfiability; its construction is not modelled.",
+            "sat.json translator. That tseitin.encode's result is a checker-accepted theorem is judged by the real checker on generated formulas "
+            "(not proved); its CNF is compared with the model's.",
     "design_ref": "DESIGN.md 4/C15",
 }
 FINDINGS = [
